@@ -127,14 +127,16 @@ def judge_transition(rep, kind, prev_dump, op, step, replay, layer):
             rep.violation("get_disagrees_with_iteration", sig, {"get": g, "listed": inlist[0]}, replay)
 
 
-def explore(ctx, start, kind, depth, layer):
+def explore(ctx, start, kind, depth, layer, prefix=()):
+    """breadth-first over all operations; prefix: operations applied first (a populated ruleset)"""
     rep = ctx.rep
     w = ctx.worker(layer)
     ops = all_ops(kind)
-    r0 = w.call({"op": "ruleset_ops", "start": start, "ops": []})
-    init = r0["ok"]["initial"]
-    seen = {key_of(init): ([], init)}
-    frontier = [([], init)]
+    prefix = list(prefix)
+    r0 = w.call({"op": "ruleset_ops", "start": start, "ops": prefix})
+    init = r0["ok"]["steps"][-1]["dump"] if prefix else r0["ok"]["initial"]
+    seen = {key_of(init): (prefix, init)}
+    frontier = [(prefix, init)]
     for d in range(depth):
         nxt = []
         cmds, meta = [], []
@@ -203,6 +205,10 @@ def shard(ctx):
             if i % ctx.nshards != ctx.shard:
                 continue
             seen = explore(ctx, start, kind, depth, layer)
+            # from a ruleset that already holds three user rules of the kind (removals and moves in the
+            # middle of a list need more rules than three steps from an empty list can create)
+            filled = [{"op": "insert", "kind": kind, "rule_id": rid, "actions": A1} for rid in IDS[kind]]
+            seen.update(explore(ctx, start, kind, depth - 1, layer, prefix=filled))
             if layer == "rel":
                 some = list(seen.values())[-1]
                 ctx.rep.sample({"start": start, "kind": kind, "depth": depth,
@@ -214,4 +220,5 @@ def shard(ctx):
 def post(rep, tier, seed):
     return {"exhaustive": True,
             "exhaustive_scope": "all operations of the stated alphabet from every distinct reachable "
-                                "state up to depth %d, per (start state, kind)" % (3 if tier == "quick" else 5)}
+                                "state up to depth %d, per (start state, kind), and up to depth %d from the ruleset "
+                                "holding three user rules of the kind" % ((3, 2) if tier == "quick" else (5, 4))}
